@@ -77,6 +77,8 @@ package kvm
 //@ trusted func (l KVMLogger) CaptureEnd(output []byte, gasUsed uint64, t time.Duration, err error)
 //@ trusted func (l KVMLogger) CaptureEnter(typ OpCode, from common.Address, to common.Address, input []byte, gas uint64, value *big.Int)
 //@ trusted func (l KVMLogger) CaptureExit(output []byte, gasUsed uint64, err error)
+//@ trusted func (l KVMLogger) CaptureState(pc uint64, op OpCode, gas, cost uint64, scope *ScopeContext, rData []byte, depth int, err error)
+//@ trusted func (l KVMLogger) CaptureFault(pc uint64, op OpCode, gas, cost uint64, scope *ScopeContext, depth int, err error)
 
 //@ trusted func (kvm *KVM) precompile(addr common.Address) (p PrecompiledContract, ok bool)
 //@ trusted func RunPrecompiledContract(p PrecompiledContract, input []byte, suppliedGas uint64) (ret []byte, remainingGas uint64, err error)
@@ -156,3 +158,26 @@ package kvm
 //@   loop 1:
 //@     invariant kvm.BlockHeight != nil
 //@   atcall StateDB.AddLog requires [dataIsPrivateCopy] l != nil && (len(l.Data) == 0 || fresh(l.Data))
+
+// ---------------------------------------------------------------- C10: the interpreter loop's guards
+// The per-opcode functions of the jump table (function-typed fields of `operation`).
+// An operation may do anything to the machine state, but it leaves the interpreter's wiring and its
+// static-frame flag as it found them (nested frames restore the flag on return).
+//@ trusted func (o *operation) execute(pc *uint64, kvm *KVM, callContext *ScopeContext) (ret []byte, err error)
+//@   modifies *
+//@   ensures kvm.interpreter == old(kvm.interpreter) && kvm.interpreter.kvm == old(kvm.interpreter.kvm) && kvm.interpreter.readOnly == old(kvm.interpreter.readOnly)
+//@ trusted func (o *operation) dynamicGas(kvm *KVM, contract *Contract, stack *Stack, mem *Memory, memorySize uint64) (r uint64, err error)
+//@ trusted func (o *operation) memorySize(stack *Stack) (size uint64, overflow bool)
+
+// Run: an operation is executed only with a stack inside its declared bounds, never a state-changing
+// one inside a static frame, and every frame starts with an empty return-data buffer.
+//@ func (in *Interpreter) Run(contract *Contract, input []byte, readOnly bool) (ret []byte, err error)
+//@   for C10
+//@   requires in != nil && in.kvm != nil && contract != nil && in.kvm.interpreter == in
+//@   modifies *
+//@   loop 1:
+//@     invariant in.kvm != nil && in.kvm.interpreter == in && (readOnly ==> in.readOnly)
+//@   atcall operation.execute requires [stackWithinDeclaredBounds] len(stack.data) >= operation.minStack && len(stack.data) <= operation.maxStack
+//@   atcall operation.execute requires [noStateChangeInStaticFrame] readOnly ==> !operation.writes
+//@   atcall NewMemory requires [frameStartsWithEmptyReturnData] in.returnData == nil
+//@   ensures [codelessFrameLeavesNoReturnData] old(len(contract.Code)) == 0 ==> in.returnData == nil && ret == nil && err == nil
